@@ -40,7 +40,7 @@ def Code.rootFree : Code → Bool
   | .simple _ v _ push | .string _ v _ _ push | .cmp _ v _ _ push | .unitVariant _ v _ push
   | .range _ v _ push | .regex _ v _ push | .like _ v _ push | .closure _ v _ push
   | .mapLen _ v _ push => v.rootFree && push.rootFree
-  | .enumTuple _ v _ _ body push | .structNamed _ v _ _ _ body push | .slice v _ body push =>
+  | .enumTuple _ v _ _ body push | .structNamed _ v _ _ _ _ body push | .slice v _ body push =>
     v.rootFree && (body.rootFree && push.rootFree)
   | .tuple v _ body => v.rootFree && body.rootFree
   | .mapGet _ v _ body push => v.rootFree && (body.rootFree && push.rootFree)
@@ -111,7 +111,7 @@ theorem Code.toks_rootFree (value : Toks) : ∀ c : Code, c.rootFree = true → 
     simp only [Code.toks]
     rw [VExpr.toks_rootFree value v h.1, Push.toks_rootFree value push h.2.2,
       Codes.toks_rootFree value body h.2.1]
-  | .structNamed sp v path fields rest body push, h => by
+  | .structNamed sp v path fields fsps rest body push, h => by
     simp only [Code.rootFree, Bool.and_eq_true] at h
     simp only [Code.toks]
     rw [VExpr.toks_rootFree value v h.1, Push.toks_rootFree value push h.2.2,
